@@ -91,6 +91,80 @@ theorem allSome_map_some (s : List α) : allSome (s.map some) = some s := by
   | nil => rfl
   | cons v s ih => simp [allSome, ih]
 
+/-! ### PIT helpers -/
+
+theorem belowJit_le (obs dobs : α) (ens dens : List α) : belowJit obs dobs ens dens ≤ ens.length := by
+  induction ens generalizing dens with
+  | nil => simp [belowJit]
+  | cons e es ih =>
+    cases dens with
+    | nil => simp [belowJit]
+    | cons d ds =>
+      simp only [belowJit, List.length_cons]
+      have := ih ds
+      split <;> omega
+
+theorem clampCst_le_half (cst : α) : clampCst cst ≤ 1 / 2 := by
+  unfold clampCst
+  split <;> linarith
+
+theorem eq_map_some_of_allSome (data : List (Option α)) (xs : List α) (h : allSome data = some xs) :
+    data = xs.map some := by
+  induction data generalizing xs with
+  | nil => simp [allSome] at h; subst h; rfl
+  | cons x l ih =>
+    cases x with
+    | none => simp [allSome] at h
+    | some v =>
+      simp only [allSome, Option.map_eq_some_iff] at h
+      obtain ⟨ys, hys, rfl⟩ := h
+      rw [ih ys hys]; rfl
+
+/-! ### interpolation into a table -/
+
+theorem interpAux_range (x lo hi : α) : ∀ (xs fs : List α) (x0 f0 : α), x0 ≤ x → lo ≤ f0 → f0 ≤ hi →
+    (∀ f ∈ fs, lo ≤ f ∧ f ≤ hi) → (x0 :: xs).Pairwise (· < ·) →
+    lo ≤ interpAux x x0 f0 xs fs ∧ interpAux x x0 f0 xs fs ≤ hi := by
+  intro xs
+  induction xs with
+  | nil => intro fs x0 f0 _ h1 h2 _ _; simp [interpAux, h1, h2]
+  | cons x1 xs ih =>
+    intro fs x0 f0 hx h1 h2 hfs hpw
+    cases fs with
+    | nil => simp [interpAux, h1, h2]
+    | cons f1 fs =>
+      have hf1 := hfs f1 (by simp)
+      have hpw' := List.pairwise_cons.mp hpw
+      have hx01 : x0 < x1 := hpw'.1 x1 (by simp)
+      simp only [interpAux]
+      by_cases hlt : x < x1
+      · rw [if_pos hlt]
+        by_cases hle : x ≤ x0
+        · rw [if_pos hle]; exact ⟨h1, h2⟩
+        · rw [if_neg hle]
+          have hd : 0 < x1 - x0 := by linarith
+          set t := (x - x0) / (x1 - x0) with ht
+          have ht0 : 0 ≤ t := div_nonneg (by linarith) hd.le
+          have ht1 : t ≤ 1 := by rw [ht, div_le_one hd]; linarith
+          have hv : (f1 - f0) / (x1 - x0) * (x - x0) + f0 = (1 - t) * f0 + t * f1 := by
+            rw [ht]; field_simp; ring
+          rw [hv]
+          have a1 := mul_nonneg ht0 (sub_nonneg.mpr hf1.1)
+          have a2 := mul_nonneg (sub_nonneg.mpr ht1) (sub_nonneg.mpr h1)
+          have a3 := mul_nonneg ht0 (sub_nonneg.mpr hf1.2)
+          have a4 := mul_nonneg (sub_nonneg.mpr ht1) (sub_nonneg.mpr h2)
+          constructor <;> nlinarith
+      · rw [if_neg hlt]
+        exact ih fs x1 f1 (not_lt.mp hlt) hf1.1 hf1.2 (fun f hf => hfs f (by simp [hf])) hpw'.2
+
+theorem clamp01_range (p : α) : 0 ≤ clamp01 p ∧ clamp01 p ≤ 1 := by
+  unfold clamp01
+  by_cases h1 : p < 0
+  · simp [h1]
+  · by_cases h2 : 1 < p
+    · simp [h1, h2]
+    · rw [if_neg h1, if_neg h2]; exact ⟨not_lt.mp h1, not_lt.mp h2⟩
+
 end field
 
 /-! ### Anderson-Darling statistic (ℝ) -/
